@@ -22,6 +22,16 @@ def _val(v):
     return None if v == 'None' else v
 
 
+def _with_repeats(keys, adaptor):
+    """Concrete list for an abstract SET of keys: every second time a key is named twice (a list member such as
+    pm:Source has no uniqueness constraint; the set of keys, and therefore every lookup, is the same)."""
+    keys = list(keys)
+    adaptor.n_set = getattr(adaptor, 'n_set', 0) + 1
+    if keys and keys != ['NA'] and adaptor.n_set % 2 == 0:
+        keys = keys + [keys[0]] if adaptor.n_set % 4 == 0 else [keys[-1]] + keys
+    return keys
+
+
 # --------------------------------------------------------------------------- adaptors
 class GenericTable:
     """sdc11073.multikey.MultiKeyLookup with the four index kinds over plain python objects."""
@@ -52,12 +62,12 @@ class GenericTable:
     def set_attr(self, name, a):
         ob = self.o[name]
         ob.u, ob.g, ob.c = a['u'], _val(a['g']), _val(a['c'])
-        ob.m = None if a['m'] == ['None'] else list(a['m'])
+        ob.m = None if a['m'] == ['None'] else _with_repeats(a['m'], self)
 
     def attr(self, name):
         ob = self.o[name]
         return {'u': ob.u, 'g': 'None' if ob.g is None else ob.g, 'c': 'None' if ob.c is None else ob.c,
-                'm': ['None'] if ob.m is None else list(ob.m)}
+                'm': ['None'] if ob.m is None else sorted(set(ob.m))}
 
     def index(self, iname):
         return getattr(self.t, iname)
@@ -106,7 +116,7 @@ class DescriptorTable(_MdibTable):
         ob.Handle = a['u']
         ob.parent_handle = _val(a['g'])
         if name == 'o3':
-            ob.Source = list(a['m'])
+            ob.Source = _with_repeats(a['m'], self)
         else:
             ob.ConditionSignaled = _val(a['c'])
 
@@ -115,7 +125,7 @@ class DescriptorTable(_MdibTable):
         d = {'u': ob.Handle, 'g': 'None' if ob.parent_handle is None else ob.parent_handle}
         if name == 'o3':
             d['c'] = 'NA'
-            d['m'] = list(ob.Source)
+            d['m'] = sorted(set(ob.Source))
         else:
             d['c'] = 'None' if ob.ConditionSignaled is None else ob.ConditionSignaled
             d['m'] = ['NA']
